@@ -1067,7 +1067,8 @@ func handleAccessScanners(base, access parser.Scanner) parser.Scanner {
 
 func (pc ParseContext) compileRelation(ctx context.Context, b ast.Branch, c ast.Children) (rel.Expr, error) {
 	names := parseNames(c.(ast.One).Node.(ast.Branch)["names"].(ast.One).Node.(ast.Branch))
-	tuples := c.(ast.One).Node.(ast.Branch)["tuple"].(ast.Many)
+	// `{|a| }` has no rows: the children are absent, not empty.
+	tuples, _ := c.(ast.One).Node.(ast.Branch)["tuple"].(ast.Many)
 	tupleExprs := make([][]rel.Expr, 0, len(tuples))
 	for _, tuple := range tuples {
 		exprs, err := pc.compileExprs(ctx, tuple.(ast.Branch)["v"].(ast.Many)...)
@@ -1587,17 +1588,29 @@ var compareOps = map[string]rel.CompareFunc{
 	"<=": func(a, b rel.Value) (bool, error) { return !b.Less(a), nil },
 	">=": func(a, b rel.Value) (bool, error) { return !a.Less(b), nil },
 
-	"(<)":   func(a, b rel.Value) (bool, error) { return subset(a, b), nil },
-	"(>)":   func(a, b rel.Value) (bool, error) { return subset(b, a), nil },
-	"(<=)":  func(a, b rel.Value) (bool, error) { return subsetOrEqual(a, b), nil },
-	"(>=)":  func(a, b rel.Value) (bool, error) { return subsetOrEqual(b, a), nil },
-	"(<>)":  func(a, b rel.Value) (bool, error) { return subsetOrSuperset(a, b), nil },
-	"(<>=)": func(a, b rel.Value) (bool, error) { return subsetSupersetOrEqual(b, a), nil },
+	"(<)":   setCompare(func(a, b rel.Value) bool { return subset(a, b) }),
+	"(>)":   setCompare(func(a, b rel.Value) bool { return subset(b, a) }),
+	"(<=)":  setCompare(func(a, b rel.Value) bool { return subsetOrEqual(a, b) }),
+	"(>=)":  setCompare(func(a, b rel.Value) bool { return subsetOrEqual(b, a) }),
+	"(<>)":  setCompare(func(a, b rel.Value) bool { return subsetOrSuperset(a, b) }),
+	"(<>=)": setCompare(func(a, b rel.Value) bool { return subsetSupersetOrEqual(b, a) }),
 
-	"!(<)":   func(a, b rel.Value) (bool, error) { return !subset(a, b), nil },
-	"!(>)":   func(a, b rel.Value) (bool, error) { return !subset(b, a), nil },
-	"!(<=)":  func(a, b rel.Value) (bool, error) { return !subsetOrEqual(a, b), nil },
-	"!(>=)":  func(a, b rel.Value) (bool, error) { return !subsetOrEqual(b, a), nil },
-	"!(<>)":  func(a, b rel.Value) (bool, error) { return !subsetOrSuperset(a, b), nil },
-	"!(<>=)": func(a, b rel.Value) (bool, error) { return !subsetSupersetOrEqual(b, a), nil },
+	"!(<)":   setCompare(func(a, b rel.Value) bool { return !subset(a, b) }),
+	"!(>)":   setCompare(func(a, b rel.Value) bool { return !subset(b, a) }),
+	"!(<=)":  setCompare(func(a, b rel.Value) bool { return !subsetOrEqual(a, b) }),
+	"!(>=)":  setCompare(func(a, b rel.Value) bool { return !subsetOrEqual(b, a) }),
+	"!(<>)":  setCompare(func(a, b rel.Value) bool { return !subsetOrSuperset(a, b) }),
+	"!(<>=)": setCompare(func(a, b rel.Value) bool { return !subsetSupersetOrEqual(b, a) }),
+}
+
+// setCompare guards a subset-style comparison: both operands must be sets.
+func setCompare(cmp func(a, b rel.Value) bool) rel.CompareFunc {
+	return func(a, b rel.Value) (bool, error) {
+		for _, v := range []rel.Value{a, b} {
+			if _, is := v.(rel.Set); !is {
+				return false, fmt.Errorf("set comparison operands must be sets, not %s", rel.ValueTypeAsString(v))
+			}
+		}
+		return cmp(a, b), nil
+	}
 }
